@@ -307,6 +307,20 @@ pub struct Trace {
     pub undrained_max: usize,
 }
 
+/// A FrameCount(1) call reports `Completed` exactly when a frame ended during that call — also when
+/// the call resumes after a breakpoint stop (even one on the very instruction that crossed the
+/// frame end): a host that counts `Completed` returns as frames must not be told of a frame that
+/// was not emulated.
+fn completed_means_one_frame(reason: &EmulationStopReason, frames_in_call: u64) -> Result<(), String> {
+    if *reason == EmulationStopReason::Completed && frames_in_call != 1 {
+        return Err(format!(
+            "a FrameCount(1) call resumed after a breakpoint stop reported Completed although {} frames ended during the call",
+            frames_in_call
+        ));
+    }
+    Ok(())
+}
+
 pub fn drive(sc: &Scenario, e: &mut Emu, d: &Driving) -> Result<Trace, String> {
     let k = sc.frames as u64;
     let f0 = e.verif_total_frames();
@@ -398,14 +412,16 @@ pub fn drive(sc: &Scenario, e: &mut Emu, d: &Driving) -> Result<Trace, String> {
             Driving::BreakAtPc(addrs) => {
                 e.set_speed(EmulationMode::FrameCount(1));
                 e.debug_interface().unwrap().mode = BpMode::At(addrs.clone());
-                e.emulate_frames(LONG).map_err(|x| format!("{:?}", x))?;
+                let info = e.emulate_frames(LONG).map_err(|x| format!("{:?}", x))?;
+                completed_means_one_frame(&info.stop_reason, total(e) - now)?;
             }
             Driving::Breakpoints(steps) => {
                 e.set_speed(EmulationMode::FrameCount(1));
                 let n = steps[bp_i % steps.len()].max(1) as u64;
                 bp_i += 1;
                 e.debug_interface().unwrap().mode = BpMode::AfterCalls(n);
-                e.emulate_frames(LONG).map_err(|x| format!("{:?}", x))?;
+                let info = e.emulate_frames(LONG).map_err(|x| format!("{:?}", x))?;
+                completed_means_one_frame(&info.stop_reason, total(e) - now)?;
             }
         }
         let after = total(e);
@@ -636,7 +652,7 @@ pub fn replay(run: &mut Run, phase: &str, case: &serde_json::Value) -> Result<()
 }
 
 pub const LEVEL: &str = "exploration";
-pub const RULE: &str = "scenario = machine x generated interrupt-driven program (ALU, memory and screen writes, beeper/border OUTs, keyboard+EAR, Kempston and mouse reads stored to RAM, AY register writes with read-back, 128K paging, LDIR, HALT, EI/DI) with a self-counting IM 1 / IM 2 handler x sound settings (AY, beeper, sample rate 8000..96000, volume) x tape (none / playing / stopped with fast loading on / stopped with fast loading off) x input script (key / joystick / mouse events attached to frame indices) x K = 2..12 frames, started from a SNA file. The reference run drives it one frame per call, draining audio. The run under test uses one of: the same again (repeatability, audio compared bit for bit), a partition into FrameCount(n) calls (each of which must complete exactly n frames and report Completed, also with a scripted stopwatch far beyond or jumping across a 1 ms time limit), maximum-speed mode with scripted stopwatch readings (zeros, non-monotonic, large), breakpoint stops after generated instruction counts with resumption, audio never drained, sound switched off, sound switched on and off between frames, the first 1..7 frames in maximum-speed mode one frame per call and the rest at normal speed (audio drained after every frame must equal the reference run's bit for bit, in the maximum-speed frames and after them); and delivers the initial file, the tape image and (with short reads) the ROM images through the harness asset, rustzx's BufferCursor, a real temporary file (FileAsset), GzipAsset, or an asset returning 1..255 bytes per read. At every frame count where the run under test stops on a frame boundary, a hash of registers, all RAM banks, paging, frame clock, canvas and border buffers must equal the reference run's. non-trivial = >= 2 frames and a driving or asset different from the reference; distinct = hash of the case. Phase event-on-the-frame-crossing-instruction (enumerated): a program that enters the ROM tape routine (stopped tape, fast loading on) after a calibrated delay, 32 consecutive paddings of 4 T-states x both machines x five drivings, so that for some padding the instruction in front of the fast loader's trap address is the one during which the frame ends; the same comparison against the one-frame-per-call run; non-trivial there = a probe run with a breakpoint on the trap address stops with the frame counter just advanced and fewer than 4 T-states on the frame clock";
+pub const RULE: &str = "scenario = machine x generated interrupt-driven program (ALU, memory and screen writes, beeper/border OUTs, keyboard+EAR, Kempston and mouse reads stored to RAM, AY register writes with read-back, 128K paging, LDIR, HALT, EI/DI) with a self-counting IM 1 / IM 2 handler x sound settings (AY, beeper, sample rate 8000..96000, volume) x tape (none / playing / stopped with fast loading on / stopped with fast loading off) x input script (key / joystick / mouse events attached to frame indices) x K = 2..12 frames, started from a SNA file. The reference run drives it one frame per call, draining audio. The run under test uses one of: the same again (repeatability, audio compared bit for bit), a partition into FrameCount(n) calls (each of which must complete exactly n frames and report Completed, also with a scripted stopwatch far beyond or jumping across a 1 ms time limit), maximum-speed mode with scripted stopwatch readings (zeros, non-monotonic, large), breakpoint stops after generated instruction counts (single-stepping included) or on generated program-counter values with resumption (a FrameCount(1) call resumed after such a stop reports Completed exactly when one frame ended during that call), audio never drained, sound switched off, sound switched on and off between frames, the first 1..7 frames in maximum-speed mode one frame per call and the rest at normal speed (audio drained after every frame must equal the reference run's bit for bit, in the maximum-speed frames and after them); and delivers the initial file, the tape image and (with short reads) the ROM images through the harness asset, rustzx's BufferCursor, a real temporary file (FileAsset), GzipAsset, or an asset returning 1..255 bytes per read. At every frame count where the run under test stops on a frame boundary, a hash of registers, all RAM banks, paging, frame clock, canvas and border buffers must equal the reference run's. non-trivial = >= 2 frames and a driving or asset different from the reference; distinct = hash of the case. Phase event-on-the-frame-crossing-instruction (enumerated): a program that enters the ROM tape routine (stopped tape, fast loading on) after a calibrated delay, 32 consecutive paddings of 4 T-states x both machines x five drivings, so that for some padding the instruction in front of the fast loader's trap address is the one during which the frame ends; the same comparison against the one-frame-per-call run; non-trivial there = a probe run with a breakpoint on the trap address stops with the frame counter just advanced and fewer than 4 T-states on the frame clock";
 pub const ASSUMPTIONS: &[&str] = &[
     "inputs are applied between emulate_frames calls at the same frame indices in all drivings (the property's 'inputs applied at frame boundaries')",
     "total frame count comes from the cfg(rustzx_verif) frame counter hook",
